@@ -90,8 +90,10 @@ def assert_repo_import():
     if not f.startswith(os.path.realpath(REPO) + os.sep):
         raise HarnessError("tangermeme imported from %s, not from %s" % (f, REPO))
     try:
+        import warnings
         import torch
         torch.set_num_threads(1)
+        warnings.filterwarnings("ignore", message="Using padding='same'")
     except Exception:
         pass
 
